@@ -267,6 +267,49 @@ def observe(problem, db, ref, desc, allow_extra=False):
     return out
 
 
+def check_two_stores(h1, h2):
+    """Two problems with their own store files, operated alternately: each file must hold exactly its own problem's data."""
+    worlds = []
+    out = []
+    for variant in ("float", "nts"):
+        problem, store, db, inds, wrap = make_world(variant)
+        if worlds:                       # make the second problem distinguishable
+            for k, ind in enumerate(inds):
+                ind.id = 100 + (k if k != 2 else 1)
+                ind.custom = {"world": 2, "k": k}
+        worlds.append({"problem": problem, "store": store, "db": db, "inds": inds, "wrap": wrap, "ref": {}, "counts": [0, 0, 0, 0]})
+    try:
+        for k in range(max(len(h1), len(h2))):
+            for w, h in zip(worlds, (h1, h2)):
+                if k >= len(h):
+                    continue
+                op, i = h[k]
+                if op == "S":
+                    w["store"].sync_individual(w["inds"][i])
+                    w["ref"][w["inds"][i].id] = image(w["inds"][i])
+                elif op == "M":
+                    w["counts"][i] += 1
+                    mutate(w["inds"][i], w["counts"][i], w["wrap"])
+                elif op == "P":
+                    w["counts"][i] += 1
+                    mutate_in_place(w["inds"][i], w["counts"][i], w["wrap"])
+                else:
+                    w["store"].sync_all()
+                    for ind in w["problem"].individuals:
+                        w["ref"][ind.id] = image(ind)
+        for n, w in enumerate(worlds):
+            out += [(k.replace("C10:", "C10:two-stores:", 1), m) for k, m in
+                    observe(w["problem"], w["db"], w["ref"], "two stores operated alternately with %r / %r (store %d)" % (h1, h2, n + 1))]
+    except Exception as e:
+        out.append(("C10:two-stores:exception:%s" % type(e).__name__, "histories %r / %r raised %r" % (h1, h2, e)))
+    for w in worlds:
+        try:
+            w["store"].destroy()
+        except Exception:
+            pass
+    return out
+
+
 def bfs(first, depth, variant, col):
     start = (first,)
     viol, canon = apply_history(start, variant)
@@ -359,6 +402,30 @@ def _shard(shard, col: Collector):
         n = bfs(first, depth, variant, col)
         col.sample({"kind": "bfs", "first_operation": first, "depth": depth, "values": variant, "states_in_this_shard": n,
                     "example_history": [first, ("M", 1), ("S", 2), ("A", None)][:depth]}, 2)
+    elif kind == "two":
+        base = [(("S", 0), ("M", 0), ("S", 0), ("A", None)), (("S", 1), ("S", 2), ("P", 1), ("S", 1)), (("A", None), ("M", 3), ("S", 3)),
+                (("S", 3), ("S", 0), ("M", 0), ("A", None), ("P", 3), ("S", 3))]
+        for h1 in base:
+            for h2 in base:
+                col.case()
+                col.nontrivial(("two", h1, h2))
+                for key, msg in check_two_stores(h1, h2):
+                    col.violation(key, "two", msg, {"h1": h1, "h2": h2})
+        col.sample({"kind": "two stores operated alternately", "h1": base[0], "h2": base[1]}, 1)
+    elif kind == "long":
+        # long periodic histories: every operation triple repeated four times (12 operations)
+        _, first = shard
+        for b in OPS[::2]:
+            for c in OPS[1::3]:
+                hist = ((first, b, c) * 4)
+                col.case()
+                col.count("long_histories")
+                viol, canon = apply_history(hist, "float")
+                if canon is not None:
+                    col.nontrivial(("long", canon))
+                for key, msg in viol:
+                    col.violation(key, "history", msg, {"history": hist, "variant": "float"})
+        col.sample({"kind": "long periodic history", "period": [first, OPS[0], OPS[1]], "repeats": 4}, 1)
     elif kind == "run":
         _, name, seed = shard
         col.case()
@@ -372,6 +439,9 @@ def replay(sub, case):
     if sub == "history":
         hist = tuple((op, i) for op, i in case["history"])
         return apply_history(hist, case["variant"])[0]
+    if sub == "two":
+        tt = lambda h: tuple((op, i) for op, i in h)
+        return check_two_stores(tt(case["h1"]), tt(case["h2"]))
     if sub == "run":
         return check_run(case["name"], case["seed"])
     raise ValueError(sub)
@@ -386,6 +456,9 @@ def run(tier, seed):
             shards.append(("bfs", op, dd, variant))
     for name in ("NSGAII", "EpsMOEA", "OMOPSO", "SMPSO", "PSOGA", "Sweep", "ScipyOpt", "NLopt"):
         shards.append(("run", name, seed))
+    shards.append(("two",))
+    for op in OPS:
+        shards.append(("long", op))
     col = run_shards(_shard, shards)
     return col, {"exhaustive": True, "states": len(col.sets.get("states", ())), "transitions": col.counters.get("transitions", 0),
                  "traces_validated_against_impl": col.counters.get("transitions", 0), "depth": depth}
